@@ -67,8 +67,14 @@ class TdmsReader(object):
 
                 filepath = self._file_path + '_index'
                 if os.path.isfile(filepath):
+                    try:
+                        self._index_file = open(filepath, "rb")
+                    except Exception:
+                        # Don't leave the data file open if the index file can't be opened
+                        self._file.close()
+                        self._file = None
+                        raise
                     self._index_file_path = filepath
-                    self._index_file = open(self._index_file_path, "rb")
 
         if self._file is not None:
             self._data_file_size = _get_file_size(self._file)
